@@ -1,6 +1,6 @@
 # C13 - generator: consumer sees exactly the yielded sequence, in every access style
 import re
-from ..core import tests, norm, relloc, live, calls, evs, Broken, value_origin, Tracer, fmt_trace, rooted, has_back_edge, cond_event
+from ..core import tests, norm, relloc, live, calls, evs, Broken, value_origin, Tracer, fmt_trace, rooted, has_back_edge, cond_event, pos
 from .. import atomic, witness
 from ..rules import *
 
@@ -41,10 +41,34 @@ def _bodies(db, name):
     """the function and, for next_future, the lambda that does the work"""
     out = list(db.fns(name))
     if name.endswith('next_future'):
-        out = lambdas_of(db, name)
+        # the work is done by the callable the returned future is constructed from: a lambda of next_future, or a functor class
+        # (future_t(starter{this})) whose call operator is then the body
+        out = lambdas_of(db, name) or _callable_bodies(db, name)
     if not out:
         raise Broken('anchor vanished: ' + name)
     return out
+
+
+def _callable_bodies(db, name):
+    """call operators of the functor objects that functions `name` hand to the constructor of the future they return"""
+    out = []; seen = set()
+    for f in db.fns(name):
+        for e in f.events():
+            if e.k != 'construct' or norm(e.get('callee') or '') != 'cocls::future::future':
+                continue
+            for a in e.get('args') or []:
+                t = re.sub(r'^(const )?(struct|class) ', '', (a.get('type') or '').rstrip(' &'))
+                if not t or '::' not in t:
+                    continue
+                for g in db.fns(norm(t) + '::operator()'):
+                    if g.get('class_inst') == t and (g['key'], g['inst']) not in seen:
+                        seen.add((g['key'], g['inst'])); out.append(g)
+    return out
+
+
+def _same_class_family(a, b):
+    a, b = a or '', b or ''
+    return bool(a and b) and (a == b or a.startswith(b + '::') or b.startswith(a + '::'))
 
 
 def _completion_style(db, g):
@@ -109,9 +133,20 @@ def ask_siblings(ctx, db, rid_='C13.ask-siblings'):
                             inst = functions_named_by(db, f, (tr[cfg[-1]].get('args') or [{}])[0].get('path')) or resume_functions(db, [f] + helper_bodies(db, f))
                             if not inst:
                                 raise Broken('%s: the resume function given to the internal awaiter was not resolved' % name)
-                            styles = set()
+                            # a name may denote several instances: the same function in every instantiation of the generator (they agree), or
+                            # the specialisations of a function template (resume_fn<bool through_future>): the facts name the template only,
+                            # so when its specialisations of this generator complete different styles the question cannot be decided here
+                            per = {}
                             for g in inst:
-                                styles |= _completion_style(db, g)
+                                per.setdefault((g.get('class_inst') or '', g.get('plain_inst') or g['inst']), set()).update(_completion_style(db, g))
+                            mine = {k: v for k, v in per.items() if _same_class_family(k[0], f.get('class_inst') or class_of(db, f))} or per
+                            if len({frozenset(v) for v in mine.values()}) > 1:
+                                raise Broken('%s: the internal awaiter is configured with %s, which names a function template whose specialisations complete different access styles (%s); '
+                                             'the extracted facts do not record which specialisation is taken' % (name.split('::')[-1], (tr[cfg[-1]].get('args') or [{}])[0].get('path'),
+                                                                                                              ' / '.join(sorted('+'.join(sorted(v)) or 'none' for v in mine.values()))))
+                            styles = set()
+                            for v in mine.values():
+                                styles |= v
                             wstyle = 'sync' if want == 'resume_fn_sync' else 'future'
                             if wstyle not in styles or (styles - {wstyle}):
                                 seen_bad = seen_bad or (f, 'the internal awaiter is configured with %s, which completes the %s access style, not the %s one' % (
@@ -151,6 +186,14 @@ def hooks(ctx, db, rid_='C13.hooks'):
             ctx.ob(rid, f, f['key'], ok, what, desc=what + ' (violated)')
 
 
+def _caller_cleared(ev):
+    """null is stored into the asker slot of the generator promise, whatever the promise is reached through (pointer or reference);
+    a plain write carries the owning declaration, which must then be the promise's _caller"""
+    if not (null_store(ev, '->_caller') or null_store(ev, '._caller')):
+        return False
+    return ev.k != 'write' or not field_of(ev) or field_of(ev) == P + '::_caller'
+
+
 def wake_asker_once(ctx, db, rid_='C13.wake-asker-once'):
     rid = ctx.rule(rid_, 'COUNT+NO-TOUCH', 'yield_suspend::await_suspend: the argument pointer is cleared and the asker taken by exchange(_caller, nullptr) before the asker is resumed; '
                    'the asker is resumed exactly once; nothing of the generator promise is read or written after that resume (the consumer may already have supplied the next '
@@ -165,11 +208,13 @@ def wake_asker_once(ctx, db, rid_='C13.wake-asker-once'):
             rs = all_indices(tr, callee_is('cocls::awaiter::resume'))
             if len(rs) != 1:
                 seen_bad = seen_bad or ('the asker is resumed %d times' % len(rs), tr); continue
-            ex = index_of(tr, lambda ev: null_store(ev, '->_caller'))
+            # the promise may be reached through the stored pointer (p->_caller) or through a reference to it (gen._caller); the take may be
+            # one exchange or its unrolled form (read into a local, then store null): the value resumed must have been read before the store
+            ex = index_of(tr, lambda ev: _caller_cleared(ev))
             org, rd = origin_in_trace(tr, rs[0], tr[rs[0]].get('recv'))
             if ex < 0 or ex > rs[0]:
                 seen_bad = seen_bad or ('the asker is not taken by exchange(_caller, nullptr) before it is resumed (it could be woken twice)', tr)
-            elif not (org or '').endswith('->_caller') or rd > ex:
+            elif not re.search(r'(->|\.)_caller$', org or '') or rd > ex:
                 seen_bad = seen_bad or ('the awaiter resumed is not the one taken from _caller', tr)
             for it in tr[rs[0] + 1:]:
                 p = it.get('path') or ''
@@ -180,6 +225,41 @@ def wake_asker_once(ctx, db, rid_='C13.wake-asker-once'):
            trace=fmt_trace(seen_bad[1]) if seen_bad else None)
 
 
+def _switch_feasible(db, tr):
+    """False when the trace follows a `case` (or `default`) of a switch over a local whose value on this very path is another enumerator:
+    `const outcome what = a ? finished : (b ? failed : item); switch (what) {...}` - the conditional expression is decided by the branches the
+    path took on a and b, so only one label can be reached.  (The path enumerator prunes this for switch (classify()); for a local that
+    names the classification it walks every label.)  Undecided values keep the trace"""
+    for i, it in enumerate(tr):
+        if it.k != 'switch' or not re.fullmatch(r'local:\w+(#\d+)?', it.get('path') or ''):
+            continue
+        d = next((x for x in reversed(tr[:i]) if x.k == 'decl' and x.get('var') == it['path'] and x.get('depth', 0) == it.get('depth', 0)), None)
+        if d is None or not d.get('init') or any(x.k == 'write' and x.get('path') == it['path'] for x in tr[pos(tr, d):i]):
+            continue
+        v = deep_resolve_select(d['init'], tr[:pos(tr, d)]) or ''
+        while v.startswith('(decl:') and v.endswith(')') and not split_select(v):
+            v = v[1:-1]
+        if not re.fullmatch(r'decl:[^?]+', v) or ' : ' in v or v.count('(') != v.count(')'):
+            continue          # not (the name of) one enumerator: undecided
+        f = db.get(it.get('fn')) if it.get('fn') else None
+        blk = (f or {}).get('_blocks', {}).get(it.get('block')) if f is not None else None
+        if blk is None:
+            continue
+        labs = [(f['_blocks'][s].get('label') or {}) for s in blk['succ'] if s >= 0 and s in f['_blocks']]
+        # (the label table is read from the pattern's representative instance: enumerators are compared without template arguments)
+        named = [norm(l_.get('text') or '') for l_ in labs if l_.get('kind') == 'case']
+        if not named or not all(t.startswith('decl:') for t in named):
+            continue
+        lab = it.get('label') or {}
+        v = norm(v)
+        if lab.get('kind') == 'case':
+            if norm(lab.get('text') or '') != v:
+                return False
+        elif v in named:
+            return False          # default (or falling out of the switch) while a case names the value
+    return True
+
+
 def unblock_future(ctx, db, rid_='C13.unblock-future'):
     rid = ctx.rule(rid_, 'COUNT', 'unblock_future resolves the waiting promise exactly once on every path: with drop only on the edge where done() is true, with the stored exception '
                    'exactly when one is present (tested before the value), otherwise with the yielded value *_ret', floor=1)
@@ -187,7 +267,7 @@ def unblock_future(ctx, db, rid_='C13.unblock-future'):
     fns = db.need(P + '::unblock_future')
     seen_bad = None
     for f in fns:
-        trs = [t for t in T.traces(f) if live(t)]
+        trs = [t for t in T.traces(f) if live(t) and _switch_feasible(db, t)]
         ctx.paths(rid, len(trs))
         arms = set()
         for tr in trs:
@@ -234,6 +314,27 @@ def unblock_future(ctx, db, rid_='C13.unblock-future'):
            trace=fmt_trace(seen_bad[1]) if seen_bad and seen_bad[1] else None)
 
 
+def _on_block(ev):
+    """does the event operate on the blocking flag of the generator promise?  The flag may be reached as this->_block or through a reference /
+    pointer to the promise held by a helper object (guard._owner._block): the innermost declaration decides"""
+    return P + '::_block' in (norm(ev.get('field') or ''), norm(ev.get('lfield') or ''))
+
+
+def _flag_observations(tr, after):
+    """what the thread learns about the blocking flag after position `after` of a trace: [(index, flag seen released)].  An atomic wait(old)
+    returns only once the flag differs from `old`; a branch on a load of the flag tells the value that was read"""
+    out = []
+    for i in range(after + 1, len(tr)):
+        it = tr[i]
+        if it.k == 'call' and atomic.is_atomic_call(it) and _on_block(it) and atomic.opname(it) == 'wait':
+            out.append((i, (it.get('args') or [{}])[0].get('const') == 0))
+        elif it.k == 'branch':
+            ce = cond_event(tr, i)
+            if ce is not None and ce.k == 'call' and atomic.is_atomic_call(ce) and _on_block(ce) and atomic.opname(ce) in ('load', 'conv'):
+                out.append((i, bool(it.val)))
+    return out
+
+
 def sync_block(ctx, db, rid_='C13.sync-block'):
     rid = ctx.rule(rid_, 'ORDER', 'next_sync: the blocking flag is reset (store false) before the generator is resumed, and the thread waits on it after the resume; unblock_sync stores true '
                    'and then notifies', floor=2)
@@ -242,25 +343,32 @@ def sync_block(ctx, db, rid_='C13.sync-block'):
     seen_bad = None
     for f in fns[:3]:
         for tr in [t for t in T.traces(f) if live(t)]:
-            st = index_of(tr, lambda ev: ev.k == 'call' and atomic.is_atomic_call(ev) and atomic.opname(ev) in ('store', 'operator=') and norm(ev.get('field') or '') == P + '::_block' and (ev.get('args') or [{}])[0].get('const') == 0)
+            st = index_of(tr, lambda ev: ev.k == 'call' and atomic.is_atomic_call(ev) and atomic.opname(ev) in ('store', 'operator=') and _on_block(ev) and (ev.get('args') or [{}])[0].get('const') == 0)
             rs = index_of(tr, lambda ev: ev.k == 'call' and norm(ev.get('callee')) == 'std::coroutine_handle::resume')
-            wt = index_of(tr, lambda ev: ev.k == 'call' and atomic.is_atomic_call(ev) and atomic.opname(ev) == 'wait' and norm(ev.get('field') or '') == P + '::_block')
+            # "waits afterwards": what the thread knows about the flag when it leaves, from its observations after the resume - an atomic
+            # wait(false) returns only once the flag has left false; a tested load says what it read (while (!_block.load()) _block.wait(false);
+            # leaves without a wait when the first load already saw the flag set).  The last observation must say "released"
+            obs = _flag_observations(tr, rs) if rs >= 0 else []
+            wt = obs[-1][0] if obs else -1
+            early = index_of(tr, lambda ev: ev.k == 'call' and atomic.is_atomic_call(ev) and atomic.opname(ev) == 'wait' and _on_block(ev))
+            if 0 <= early < rs:
+                wt = early          # blocking on the flag before the body was resumed: nobody is running who could release it
             if not (0 <= st < rs < wt):
                 seen_bad = seen_bad or ('reset(%d) < resume(%d) < wait(%d) does not hold: a stale "ready" flag lets next() return before an asynchronous body has yielded' % (st, rs, wt), tr)
-            elif (tr[wt].get('args') or [{}])[0].get('const') != 0:
+            elif not obs[-1][1]:
                 seen_bad = seen_bad or ('the wait does not wait for the flag to leave false', tr)
     f0 = fns[0]
     ctx.ob(rid, f0, f0['key'], seen_bad is None, 'reset < resume < wait' + ('' if not seen_bad else ' -- ' + seen_bad[0]), desc=(seen_bad[0][:80] if seen_bad else None), trace=fmt_trace(seen_bad[1]) if seen_bad else None)
     # the synchronous completion: whichever function releases the blocking flag (unblock_sync, or the resume function itself when it was inlined)
     rel = []; seenk = set()
     for g in db.all_instances():
-        if g['nname'].startswith(P + '::') and g['key'] not in seenk and any(e.k == 'call' and atomic.is_atomic_call(e) and atomic.opname(e) in ('store', 'operator=', 'exchange') and norm(e.get('field') or '') == P + '::_block'
+        if g['nname'].startswith(P + '::') and g['key'] not in seenk and any(e.k == 'call' and atomic.is_atomic_call(e) and atomic.opname(e) in ('store', 'operator=', 'exchange') and _on_block(e)
                                                  and (e.get('args') or [{}])[0].get('const') == 1 for e in g.events()):
             seenk.add(g['key']); rel.append(g)
     if not rel:
         raise Broken('anchor vanished: no function of the generator promise sets the blocking flag')
     for f in rel:
-        evl = [e for e in f.events() if e.k == 'call' and atomic.is_atomic_call(e) and norm(e.get('field') or '') == P + '::_block']
+        evl = [e for e in f.events() if e.k == 'call' and atomic.is_atomic_call(e) and _on_block(e)]
         names = [atomic.opname(e) for e in evl]
         ok = names[:2] in (['store', 'notify_all'], ['operator=', 'notify_all'], ['exchange', 'notify_all']) and (evl[0].get('args') or [{}])[0].get('const') == 1
         ctx.ob(rid, f, f['key'], ok, '%s: store(true) then notify_all' % f['nname'].split('::')[-1], desc='unblock_sync is not store(true) then notify_all')
